@@ -452,6 +452,8 @@ pub fn q_read(p: &Profile) -> BoxedStrategy<CQuery> {
     prop_oneof![
         4 => ids_of(p, elem_ref(p), 3, false).prop_map(|ids| CQuery::SelectValues { ids, keys: vec![] }),
         3 => (prop::collection::vec(elem_ref(p), 1..3), distinct_keys(3)).prop_map(|(ids, keys)| CQuery::SelectValues { ids: QIds::Ids(ids), keys }),
+        // a requested key list may name a key twice (any order): it must still succeed when every key exists
+        1 => (prop::collection::vec(elem_ref(p), 1..3), prop::collection::vec(0usize..8, 2..5)).prop_map(|(ids, ks)| CQuery::SelectValues { ids: QIds::Ids(ids), keys: ks.into_iter().map(|k| key_pool()[k].clone()).collect() }),
         1 => (safe_search(p, false), distinct_keys(2)).prop_map(|(s, keys)| CQuery::SelectValues { ids: QIds::Search(Box::new(s)), keys }),
         2 => ids_of(p, elem_ref(p), 3, false).prop_map(CQuery::SelectKeys),
         2 => ids_of(p, elem_ref(p), 3, false).prop_map(CQuery::SelectKeyCount),
